@@ -101,7 +101,7 @@ def add_seqtrack(u):
              ensures=[C('C05.seqtrack.new.remembers_nothing', 'forall|i: int| 0 <= i < 16384 ==> (#[trigger] r.entries@[i]).conn_id == 0 && r.entries@[i].timestamp_ms == 0 && r.entries@[i].seq == 0'),
                       'r.count == 0']),
         u.fn(SQ, 'insert', impl='SequenceTracker', sub='seqtrack', props=(), ensures=[
-            C('C05.seqtrack.insert.overwrites_exactly_one_slot', '''final(self).entries@[seq_slot(seq)].conn_id == conn_id && final(self).entries@[seq_slot(seq)].timestamp_ms == timestamp_ms
+            C('C05+C10.seqtrack.insert.overwrites_exactly_one_slot', '''final(self).entries@[seq_slot(seq)].conn_id == conn_id && final(self).entries@[seq_slot(seq)].timestamp_ms == timestamp_ms
             && final(self).entries@[seq_slot(seq)].seq == seq
             && (forall|i: int| 0 <= i < 16384 && i != seq_slot(seq) ==> #[trigger] final(self).entries@[i] == old(self).entries@[i])'''),
         ], splices=[('let idx = (seq as usize) & SEQ_TRACKING_MASK;', 'proof { lemma_seq_slot(seq); }', 'after')]),
